@@ -163,7 +163,25 @@ static void emplace_iterators(Vec& v, const Elem& e, std::index_sequence<I...>)
 CELL(38, CP, "emplace_back with lvalue and const lvalue arguments", Vec a = make(); emplace_lvalues(a, an_elem(0), std::make_index_sequence<N>{});)
 CELL(39, CP && LS::NF > 0, "emplace_back with iterators for FixedSize parameters", Vec a = make(); emplace_iterators<false>(a, an_elem(0), std::make_index_sequence<N>{});)
 CELL(40, LS::NF > 0, "emplace_back with move_iterators for FixedSize parameters", Vec a = make(); emplace_iterators<true>(a, an_elem(0), std::make_index_sequence<N>{});)
-static constexpr int NCELLS = 41;
+CELL(41, N == 2 || N == 3, "structured bindings of a const element / through a const reference to an element",
+     Vec a = make(); LS::emplace(a, an_elem(0)); const El ce{a[0]}; El e{a[0]};
+     if constexpr (N == 2) { auto& [x, y] = ce; (void)x; (void)y; const auto& [p, q] = e; (void)p; (void)q; auto&& [r, t] = std::as_const(e); (void)r; (void)t; }
+     else if constexpr (N == 3) { auto& [x, y, z] = ce; (void)x; (void)y; (void)z; const auto& [p, q, w] = e; (void)p; (void)q; (void)w;
+                                  auto&& [r, t, u] = std::as_const(e); (void)r; (void)t; (void)u; })
+CELL(42, N == 2 || N == 3, "structured bindings of an rvalue element",
+     Vec a = make(); LS::emplace(a, an_elem(0)); El e{a[0]};
+     if constexpr (N == 2) { auto&& [x, y] = std::move(e); (void)x; (void)y; }
+     else if constexpr (N == 3) { auto&& [x, y, z] = std::move(e); (void)x; (void)y; (void)z; })
+CELL(43, CP && (N == 2 || N == 3), "structured bindings of a copy of an element (auto [a, b] = element)",
+     Vec a = make(); LS::emplace(a, an_elem(0)); El e{a[0]};
+     if constexpr (N == 2) { auto [x, y] = e; (void)x; (void)y; }
+     else if constexpr (N == 3) { auto [x, y, z] = e; (void)x; (void)y; (void)z; })
+CELL(44, N == 2 || N == 3, "structured bindings of references: auto [a, b] = v[0], const auto& [a, b] = v[0]",
+     Vec a = make(); const Vec& c = a; LS::emplace(a, an_elem(0));
+     if constexpr (N == 2) { auto [x, y] = a[0]; (void)x; (void)y; const auto& [p, q] = a[0]; (void)p; (void)q; auto [r, t] = c[0]; (void)r; (void)t; }
+     else if constexpr (N == 3) { auto [x, y, z] = a[0]; (void)x; (void)y; (void)z; const auto& [p, q, w] = a[0]; (void)p; (void)q; (void)w;
+                                  auto [r, t, u] = c[0]; (void)r; (void)t; (void)u; })
+static constexpr int NCELLS = 45;
 
 #define RUN(n)                                                   \
     if constexpr ((PROBE_ONLY == -1 || PROBE_ONLY == n) && need_##n) cell_##n();
@@ -172,7 +190,7 @@ static void all_cells()
 {
     RUN(0) RUN(1) RUN(2) RUN(3) RUN(4) RUN(5) RUN(6) RUN(7) RUN(8) RUN(9) RUN(10) RUN(11) RUN(12) RUN(13) RUN(14) RUN(15) RUN(16) RUN(17) RUN(18)
     RUN(19) RUN(20) RUN(21) RUN(22) RUN(23) RUN(24) RUN(25) RUN(26) RUN(27) RUN(28) RUN(29) RUN(30) RUN(31) RUN(32) RUN(33) RUN(34) RUN(35) RUN(36)
-    RUN(37) RUN(38) RUN(39) RUN(40)
+    RUN(37) RUN(38) RUN(39) RUN(40) RUN(41) RUN(42) RUN(43) RUN(44)
 }
 };  // struct Probe
 
@@ -186,7 +204,7 @@ int main()
 #define SHOW(n) std::printf("%d\t%d\t%s\n", n, ThisProbe::need_##n ? 1 : 0, ThisProbe::name_##n);
     SHOW(0) SHOW(1) SHOW(2) SHOW(3) SHOW(4) SHOW(5) SHOW(6) SHOW(7) SHOW(8) SHOW(9) SHOW(10) SHOW(11) SHOW(12) SHOW(13) SHOW(14) SHOW(15) SHOW(16)
     SHOW(17) SHOW(18) SHOW(19) SHOW(20) SHOW(21) SHOW(22) SHOW(23) SHOW(24) SHOW(25) SHOW(26) SHOW(27) SHOW(28) SHOW(29) SHOW(30) SHOW(31) SHOW(32)
-    SHOW(33) SHOW(34) SHOW(35) SHOW(36) SHOW(37) SHOW(38) SHOW(39) SHOW(40)
+    SHOW(33) SHOW(34) SHOW(35) SHOW(36) SHOW(37) SHOW(38) SHOW(39) SHOW(40) SHOW(41) SHOW(42) SHOW(43) SHOW(44)
     return 0;
 }
 #endif
